@@ -67,6 +67,12 @@ fn answer(line: &str) -> String {
         let inner = line.trim_start().strip_prefix("rnglog").unwrap_or("").trim_start();
         return scan::rnglog(inner, &|l| answer(l));
     }
+    if name == "sequence" {
+        // sequence <request> ;; <request> ;; ... : the requests in this order on this thread, all answers
+        let rest = args.join(" ");
+        let outs: Vec<String> = rest.split(";;").map(|x| x.trim()).filter(|x| !x.is_empty()).map(|l| answer_owned(l)).collect();
+        return format!("ok {}", outs.join(" ;; "));
+    }
     if name == "interleave" {
         // interleave <threads> <rounds> <request> ;; <request> ;; ...
         if args.len() < 3 { return "bad-request".to_string(); }
